@@ -16,7 +16,7 @@ def run(tier):
     P = ["p1", "p2"]
     ev = ["Receive", "PeerUp", "SetFail", "RetryTick"]
     all4 = ("rcpt", "fwd", "dlv", "del")
-    f1 = dict(peers=P, enabled=ev, cat={"r1": attr("p1", "app", req=("dlv", "rcpt")), "r2": attr("p1", "noagent", req=("dlv", "del")),
+    f1 = dict(peers=P, enabled=ev, cat={"r1": attr("p1", "app", req=("dlv", "rcpt")), "r2": attr("p1", "noagent", req=("dlv", "del")), "r15": attr("p2", "self", req=("dlv", "del")),
                                        "r3": attr("p1", "far", req=("fwd", "rcpt", "del"), time=True)})
     f2 = dict(peers=P, enabled=ev, cat={"r4": attr("p1", "far", req=("del", "fwd"), hop=(2, 2)), "r5": attr("p1", "far", hasunk=True, unkf=("report",)),
                                        "r6": attr("p1", "far", req=all4, hasunk=True, unkf=("delete", "report"), time=True)})
